@@ -955,29 +955,28 @@ fn root_first_delta(bytes: &[u8]) -> Option<u64> {
 fn delta_fit(target: u64, seed: u64) -> Option<(u64, u64, Vec<u8>)> {
     // bytes of output per filler key, from a sample
     let per_key = if target > 50_000 {
-        let d = root_first_delta(&delta_build(4_000, seed, 1))? as f64;
+        let d = root_first_delta(&delta_build(4_000, seed, 3))? as f64;
         d / 4_000.0
     } else {
         13.0
     };
     let mut n = if target < 600 { 0 } else { ((target - 400) as f64 / (per_key * 1.004)) as u64 };
-    let mut pad = 1u64;
+    // Measurements are only taken BELOW the target (with one padding byte),
+    // where the distance cannot be at the boundary under test; the padding
+    // for the final build is then computed, not searched: every further 'e'
+    // of the last key adds exactly one one-byte node in front of the root.
+    // (from three padding bytes on the relation is exactly linear; the first
+    // two 'e' nodes may be shared with existing nodes through the cache)
     for _ in 0..8 {
-        let bytes = delta_build(n, seed, pad);
-        let d = root_first_delta(&bytes)?;
-        if d == target {
-            return Some((n, pad, bytes));
+        let bytes = delta_build(n, seed, 3);
+        let d3 = root_first_delta(&bytes)?;
+        if d3 <= target {
+            let pad = 3 + (target - d3);
+            let fin = if pad == 3 { bytes } else { delta_build(n, seed, pad) };
+            return Some((n, pad, fin));
         }
-        if d < target {
-            // every further 'e' of the last key adds a one-byte node
-            pad += target - d;
-        } else if pad > 1 + (d - target) {
-            pad -= d - target;
-        } else {
-            let drop = ((d - target) as f64 / per_key) as u64 + 20;
-            n = n.saturating_sub(drop);
-            pad = 1;
-        }
+        let drop = ((d3 - target) as f64 / per_key) as u64 + 20;
+        n = n.saturating_sub(drop);
     }
     None
 }
@@ -1055,4 +1054,8 @@ pub fn run_delta_boundary(case: &DeltaCase) -> BigRun {
         Err(p) => viol("C01.reader_panicked", panic_msg(p)),
     };
     out
+}
+
+pub fn debug_delta(n: u64, seed: u64, pad: u64) -> Option<u64> {
+    root_first_delta(&delta_build(n, seed, pad))
 }
